@@ -419,11 +419,19 @@ def hash_reads_what_eq_compares(ctx):
         init = inits[0]
         for ini in inits:
             rv = recv_name(ini)
+            by_source = {}
             for st in all_stmts(ini.node):
                 if isinstance(st, ast.Assign) and not isinstance(st.value, ast.Constant):
                     names = {t.attr for t in st.targets if is_self_attr(t, selfname=rv)}
                     if names:
-                        groups.append(names)
+                        # attributes given the same parameter (in one statement or in several) hold one value
+                        src_key = st.value.id if isinstance(st.value, ast.Name) and st.value.id in ini.params else None
+                        if src_key is not None and src_key in by_source:
+                            by_source[src_key] |= names
+                        else:
+                            groups.append(names)
+                            if src_key is not None:
+                                by_source[src_key] = names
             if not any(isinstance(x, ast.Call) and isinstance(x.func, ast.Attribute) and x.func.attr == "__init__" and isinstance(x.func.value, ast.Call) and call_name(x.func.value) == "super" for x in ast.walk(ini.node)):
                 break
         stored = {min(g) for g in groups}
@@ -502,32 +510,18 @@ def equality_tells_lookalikes_apart(ctx):
 def definition_merge_overrides(ctx):
     """The view of all definitions merges the mixins in order, later ones overriding earlier ones, own last
     (decided by interpreting the reader, see c16.merged_view)."""
-    from .c16 import _mixins_loops, merged_view
+    from .c16 import effective_readers, merged_view
 
-    oc = A.function_class(ctx.repo)
-    rd = None
-    for m in oc.methods.values():
-        if _mixins_loops(m) and any(is_self_attr(x, "_defns", selfname=recv_name(m)) for x in ast.walk(m.node)) and m.name != "__init__":
-            if any(isinstance(x, ast.Return) for x in ast.walk(m.node)):
-                rd = m
-                break
-    ctx.require(rd is not None, "effective-table reader not found")
+    rd, _ = effective_readers(ctx)
     ctx.touch(rd)
     merged_view(ctx, rd)
 
 
 def definition_view_is_current(ctx):
     """The view of all definitions shows the ancestors' current tables on every read (see c16.merged_view_is_current)."""
-    from .c16 import _mixins_loops, merged_view_is_current
+    from .c16 import effective_readers, merged_view_is_current
 
-    oc = A.function_class(ctx.repo)
-    rd = None
-    for m in oc.methods.values():
-        if _mixins_loops(m) and any(is_self_attr(x, "_defns", selfname=recv_name(m)) for x in ast.walk(m.node)) and m.name != "__init__":
-            if any(isinstance(x, ast.Return) for x in ast.walk(m.node)):
-                rd = m
-                break
-    ctx.require(rd is not None, "effective-table reader not found")
+    rd, _ = effective_readers(ctx)
     ctx.touch(rd)
     merged_view_is_current(ctx, rd)
 
